@@ -11,8 +11,8 @@ def strip(o):
         return dict(panic=True)
     if not o.get("ok"):
         return dict(err=o.get("err"))
-    out = {k: o[k][0] for k in ["u_trop", "v_trop", "u", "v", "jacobian"]}
-    out["loop_momenta"] = [[comp[0] for comp in vec] for vec in o["loop_momenta"]]
+    out = {k: canon_bits(o[k][0]) for k in ["u_trop", "v_trop", "u", "v", "jacobian"]}          # NaN payload/sign is not a value
+    out["loop_momenta"] = [[canon_bits(comp[0]) for comp in vec] for vec in o["loop_momenta"]]
     return out
 
 
@@ -20,7 +20,16 @@ def gen_history(r, c, nops):
     E, L, D = len(c["edges"]), c["L"], c["D"]
     dim = G.num_variables(E, L, D)
     ops = []
-    pts = [[f2b(r.open_unit()) for _ in range(dim)] for _ in range(max(2, nops // 4))]
+    pts = [[f2b(r.open_unit()) for _ in range(dim)] for _ in range(max(2, nops // 6))]
+    # neighbours: a point that differs from a pool point in ONE coordinate by a few 1e-4 (the Gamma coordinate 2E-2 half of the
+    # time): a call that follows its neighbour on the same thread must not inherit anything from it
+    for base in list(pts):
+        if r.chance(0.6):
+            q = list(base)
+            j = 2 * E - 2 if (r.chance(0.5) and 2 * E - 2 < dim) else r.below(dim)
+            v = b2f(q[j]) + (1 if r.chance(0.5) else -1) * 4e-4 * (0.1 + 0.9 * r.unit())
+            q[j] = f2b(min(max(v, 2.0**-40), 1 - 2.0**-40))
+            pts.append(q)
     for i in range(nops):
         k = r.below(10)
         st = dict(stability=r.choice([None, None, f2b(1e-5), f2b(0.0), f2b(1e-16)]), debug=r.chance(0.3), metadata=r.chance(0.5))   # 0 and 1e-16: the test mostly rejects
@@ -33,12 +42,12 @@ def gen_history(r, c, nops):
 
 
 def run(rep, rng, tier, replay=None):
-    ncase = 12 if tier == "quick" else 60
+    ncase = 30 if tier == "quick" else 120
     cases = []
     for i in range(ncase):
         r = rng.fork()
-        c = SC.gen_sample_case(r, emax=5)
-        c["ops"] = gen_history(r, c, r.range(50, 120) if tier == "quick" else r.range(100, 500))
+        c = SC.gen_sample_case(r, emax=5, Ds=(1 + i % 6,))      # every dimension, hence every parity of D x L, in every run
+        c["ops"] = gen_history(r, c, r.range(40, 90) if tier == "quick" else r.range(100, 400))
         c["threads"] = [1, 2, 4, 8, 16][i % 5]
         cases.append(c)
     res1 = harness("history", dict(cases=cases), timeout=900)["results"]
